@@ -98,15 +98,29 @@ mod c18 {
         check_send_accept(false);
     }
 
-    /// EXPECTED TO FAIL (candidate defect D3, session.rs:114): an acknowledgement of something never
-    /// sent underflows `window_size - unacknowledged` or silently shrinks the window.
+    /// `SendWindow::check_ack` (added by fix 8487c2b for D3, session.rs:114): refuses exactly the acknowledgements of
+    /// something that is not in flight, and is pure. `accept_incoming` is only ever called after it succeeded
+    /// (`process_rx_data`; the session-level harness c18_d3_rx_bogus_ack proves the refusal leaves the session untouched),
+    /// which is the precondition of `c18_send_accept_ack`.
     // TIER: quick
     // KIND: complete
     #[kani::proof]
     #[kani::stub(embassy_time::Instant::now, fake_now)]
     #[kani::stub(log::max_level, log_off)]
-    fn c18_d3_send_accept_bogus_ack() {
-        check_send_accept(true);
+    fn c18_send_check_ack() {
+        let w = any_send();
+        kani::assume(w.level <= w.window_size);
+        let h = any_wire_hdr();
+        let ack = h.get_ack();
+        let (ws, lvl, last, at) = (w.window_size, w.level, w.last_sent_seq_num, w.sent_at);
+
+        let r = w.check_ack(&h);
+
+        kani::assert(r.is_ok() == ack_ok(&w, ack), "C18.send_window.check_ack_ok_iff_ack_in_flight");
+        kani::assert(w.window_size == ws && w.level == lvl && w.last_sent_seq_num == last && w.sent_at == at, "C18.send_window.check_ack_is_pure");
+        kani::cover!(r.is_err(), "bogus ack refused");
+        kani::cover!(r.is_ok() && ack.is_some() && last < 3 && ack.unwrap() > 250, "valid ack across the 8-bit wrap accepted");
+        kani::cover!(r.is_ok() && ack.is_none(), "no ack");
     }
 
     // TIER: quick
@@ -684,6 +698,7 @@ mod c18 {
     /// EXPECTED TO FAIL (D3, session.rs:782): a negotiated segment size below the header length.
     // TIER: quick
     // KIND: bounded (message <= 40 bytes)
+    #[cfg(verif_unclosed)] // precondition excluded: segment sizes below the data header cannot be negotiated any more (C18.handshake.negotiated_parameters_in_range, fixes 7c8ec77/6872f03)
     #[kani::proof]
     #[kani::unwind(3)]
     #[kani::stub(embassy_time::Instant::now, fake_now)]
@@ -929,12 +944,13 @@ mod c18 {
             kani::assert(s.handshake_pending == responder, "C18.handshake.responder_owes_a_response");
             if responder {
                 kani::assert(s.window_size <= p_win, "C18.handshake.window_not_above_peer_offer");
-                kani::assert(s.recv_window.ack_seq == o.ack_seq, "C18.handshake.responder_expects_seq_0_next");
+                kani::assert(s.recv_window.ack_seq == 255, "C18.handshake.responder_expects_seq_0_next");
             } else {
                 kani::assert(s.mtu == p_mtu && s.window_size == p_win, "C18.handshake.initiator_adopts_response");
                 kani::assert(s.recv_window.ack_seq == 0, "C18.handshake.response_counts_as_seq_0");
             }
-            kani::assert(s.send_window.last_sent_seq_num == o.last && s.recv_window.buf_messages_ct == o.ct && s.recv_window.rem_msg_len == o.rem, "C18.handshake.keeps_sequence_and_buffer");
+            // a handshake (re)starts the session (fix ced8e46): fresh sequence numbers, nothing buffered, no message in progress
+            kani::assert(s.send_window.last_sent_seq_num == 255 && s.recv_window.buf_messages_ct == 0 && s.recv_window.rem_msg_len == 0, "C18.handshake.starts_with_fresh_sequence_and_buffer");
         } else {
             kani::assert(
                 session_params_unchanged(&s, &o) && send_unchanged(&s, &o) && recv_counters_unchanged(&s, &o) && s.recv_window.buf_messages_ct == o.ct && s.recv_window.buf.c18_mlen() == o.len,
@@ -1100,6 +1116,7 @@ mod c18 {
     /// EXPECTED TO FAIL (new candidate D16, session.rs:137): the response to a request with window 0.
     // TIER: quick
     // KIND: complete
+    #[cfg(verif_unclosed)] // precondition excluded: a window of 0 cannot be negotiated any more (C18.handshake.req_zero_window_refused, fix 7c8ec77)
     #[kani::proof]
     #[kani::stub(embassy_time::Instant::now, fake_now)]
     #[kani::stub(log::max_level, log_off)]
